@@ -28,8 +28,17 @@ import (
 // followed by a further accumulating append, removes the taint.
 
 type Witness struct {
-	At  ssa.Instruction
-	Why string
+	At     ssa.Instruction
+	Why    string
+	Origin *Witness // the callee's witness when the taint arrived through a call
+}
+
+// Root follows Origin to the accumulation that started the taint.
+func (w *Witness) Root() *Witness {
+	for w != nil && w.Origin != nil {
+		w = w.Origin
+	}
+	return w
 }
 
 // Source is one order-carrying accumulation found in a function.
@@ -42,6 +51,7 @@ type Source struct {
 	Sorted bool            // a dominating sort was found
 	How    string          // how it leaks
 	Fatal  bool            // cannot be repaired by sorting afterwards (stateful accumulator fed in map order)
+	Origin *Witness        // for a taint that arrived through a call: the callee's witness
 }
 
 type Summary struct {
@@ -603,9 +613,6 @@ func (st *fnState) seedLoops() {
 										}
 										st.tstores[la] = appendUnique(st.tstores[la], s)
 										st.addSource(in, "'"+st.locKey(la)+"' grown by append inside "+why, st.locKey(la), false)
-										if k := visParam(st.fn, la); k >= 0 && st.sum.Out[k] == nil {
-											st.sum.Out[k] = w
-										}
 									}
 								}
 							}
@@ -822,12 +829,6 @@ func (st *fnState) taintLoc(addr ssa.Value, w *Witness, by ssa.Instruction) {
 		st.tlocs[la] = w
 	}
 	st.tstores[la] = appendUnique(st.tstores[la], by)
-	if k := visParam(st.fn, la); k >= 0 && la.path != "" {
-		if st.sum.Out[k] == nil {
-			st.sum.Out[k] = w
-			st.leak(w, "stored unsorted into '"+st.locKey(la)+"', which the caller sees")
-		}
-	}
 }
 
 func (st *fnState) leak(w *Witness, how string) {
@@ -917,13 +918,14 @@ func (st *fnState) propagate() {
 					args := callArgs(x)
 					for _, s := range st.o.calleeSummaries(x) {
 						if s.Ret != nil {
-							set(x, &Witness{At: x, Why: "result of a call that returns a map-ordered slice (" + s.Ret.Why + ")"})
+							set(x, &Witness{At: x, Why: "result of a call that returns a map-ordered slice (" + s.Ret.Why + ")", Origin: s.Ret})
 							if _, ok := st.srcIdx[x]; !ok {
 								name := "?"
 								if f := Callee(x); f != nil {
 									name = f.Name()
 								}
-								st.addSource(x, "result of "+name+"(), which is in map order", "call:"+name, false)
+								i := st.addSource(x, "result of "+name+"(), which is in map order", "call:"+name, false)
+								st.sum.Sources[i].Origin = s.Ret
 								changed = true
 							}
 						}
@@ -934,13 +936,14 @@ func (st *fnState) propagate() {
 						sort.Ints(ks)
 						for _, k := range ks {
 							if k < len(args) {
-								w := &Witness{At: x, Why: "callee stores a map-ordered slice behind this argument (" + s.Out[k].Why + ")"}
+								w := &Witness{At: x, Why: "callee stores a map-ordered slice behind this argument (" + s.Out[k].Why + ")", Origin: s.Out[k]}
 								if _, ok := st.srcIdx[x]; !ok {
 									name := "?"
 									if f := Callee(x); f != nil {
 										name = f.Name()
 									}
-									st.addSource(x, "object filled by "+name+"() with a map-ordered slice", "call:"+name, false)
+									i := st.addSource(x, "object filled by "+name+"() with a map-ordered slice", "call:"+name, false)
+									st.sum.Sources[i].Origin = s.Out[k]
 								}
 								n := len(st.tlocs)
 								// the pointee of the argument
@@ -1102,7 +1105,48 @@ func (st *fnState) threadAndAccum() {
 	})
 }
 
+// outAtExit: a location behind a caller-visible parameter that is still map-ordered when the function returns.
+func (st *fnState) outAtExit() {
+	var locs []loc
+	for l := range st.tlocs {
+		locs = append(locs, l)
+	}
+	sort.Slice(locs, func(i, j int) bool {
+		if locs[i].root.Name() != locs[j].root.Name() {
+			return locs[i].root.Name() < locs[j].root.Name()
+		}
+		return locs[i].path < locs[j].path
+	})
+	for _, l := range locs {
+		k := visParam(st.fn, l)
+		if k < 0 || l.path == "" {
+			continue
+		}
+		w := st.tlocs[l]
+		still := false
+		for _, b := range st.fn.Blocks {
+			if len(b.Instrs) == 0 {
+				continue
+			}
+			if r, ok := b.Instrs[len(b.Instrs)-1].(*ssa.Return); ok {
+				if st.killedLoc(l, r) {
+					st.markSorted(w)
+				} else {
+					still = true
+				}
+			}
+		}
+		if still {
+			if st.sum.Out[k] == nil {
+				st.sum.Out[k] = w
+			}
+			st.leak(w, "stored unsorted into '"+st.locKey(l)+"', which the caller sees")
+		}
+	}
+}
+
 func (st *fnState) finish() {
+	st.outAtExit()
 	sort.SliceStable(st.sum.Sources, func(i, j int) bool {
 		return st.sum.Sources[i].At.Pos() < st.sum.Sources[j].At.Pos()
 	})
